@@ -83,6 +83,7 @@ type c18Case struct {
 	TgtFeat  string     `json:"tgt_feat,omitempty"`
 	History  string     `json:"history,omitempty"` // "" = one run, move = run, move source tags, run again
 	App2     bool       `json:"app2,omitempty"`    // source registry also holds proj/app2 (repos-filter cases)
+	CatPage  int        `json:"cat_page,omitempty"` // the source hands out its catalogue in pages of this size; it then also holds aaa/first and zzz/last
 	CLI      bool       `json:"cli,omitempty"`     // replay through the command-line route
 }
 
@@ -377,12 +378,18 @@ func c18BackupName(kind, repo, tag string) (string, string) {
 
 func c18NewWorld(c c18Case) *c18World {
 	w := &c18World{c: c, net: modelreg.NewNet(), yaml: c18YAML(c)}
-	sh := w.net.AddHost(c18SrcHost, modelreg.Full())
+	sf := modelreg.Full()
+	sf.CatalogPage = c.CatPage
+	sh := w.net.AddHost(c18SrcHost, sf)
 	th := w.net.AddHost(c18TgtHost, c18TgtFeatures(c.TgtFeat))
 	src := c18SrcPop(c.Src)
 	srcRepos := map[string][]c18TagImg{c18SrcRepo: src, c18LibRepo: c18LibPop}
 	if c.App2 {
 		srcRepos["proj/app2"] = c18App2Pop
+	}
+	if c.CatPage > 0 {
+		srcRepos["aaa/first"] = c18App2Pop
+		srcRepos["zzz/last"] = c18App2Pop
 	}
 	for _, e := range c.Entries {
 		if e.Type != "registry" && e.srcRepo() != c18SrcRepo {
